@@ -6,7 +6,7 @@ LEAN_MODULE = "IsobarV.Props.C07Runs"
 CHECKER_MODULES = ["IsobarV.Props.C07", "IsobarV.Sched.Solo", "IsobarV.Sched.Multi", "IsobarV.Props.C07Runs"]
 THEOREMS = ["IsobarV.C07." + t for t in ("tick_phase_order", "phase_one_only_offs", "event_phase_in_order", "tick_decomposes",
     "event_phase_is_merge", "non_interference", "solo_run", "prepared_pointwise", "static_idempotent", "static_never_skips",
-    "static_hold", "static_keeps", "globals_get_set",
+    "static_hold", "static_keeps", "static_rewind_keeps_hold", "static_rewind_restarts", "static_read_held", "globals_get_set",
     # whole runs (any number of ticks): lean/IsobarV/Props/C07Runs.lean
     "tick_is_merge", "run_is_merge", "alone_is_the_solo_timeline", "mergedCalls_append", "exW_noActions", "exW_posDur", "exW_faultless")] + \
     ["IsobarV.Sched." + t for t in ("tickTrack_solo", "phaseTracks_solo", "foldl_fireOne_tracks",
@@ -147,6 +147,7 @@ def static_cases(ctx):
                 seq[0] += 1
                 reads[k].append((tick_now[0], v, t, seq[0]))
             return f
+        inner_rewound = []  # read-sequence numbers after which the inner pattern was rewound by a constructor
         late = {}           # reader -> (schedule after this many ticks, extra delay in ticks)
         for k in range(nreaders):
             late[k] = (r.choice([0, 0, r.randint(1, hold_t * 2)]), r.choice([0, 0, r.randint(1, hold_t + 2)]))
@@ -157,7 +158,14 @@ def static_cases(ctx):
             kw = {}
             if late[k][1]:
                 kw["delay"] = late[k][1] / tpb      # a delayed reader shares the very same static pattern object
-            tl.schedule({"action": mk(k), "args": {"v": static, "t": iso.PCurrentTime()}, "duration": d}, **kw)
+            src = static
+            if r.random() < 0.3:
+                # a reader that reads the shared pattern THROUGH a pattern built around it: constructors rewind the patterns
+                # they are given (Pattern.reset reaches the static pattern's INNER pattern, whose elements start over at
+                # the next change) — but the value being held, and for how long, is the shared state and stays
+                src = iso.PSequence([static])
+                inner_rewound.append(seq[0])
+            tl.schedule({"action": mk(k), "args": {"v": src, "t": iso.PCurrentTime()}, "duration": d}, **kw)
         for k in range(nreaders):
             if late[k][0] == 0:
                 sched_reader(k)
@@ -173,24 +181,43 @@ def static_cases(ctx):
         # tick see the same value.  PCurrentTime = round(j / tpb, 5).
         bad = None
         allreads = sorted((sq, j, k, v, t) for k, rs in reads.items() for (j, v, t, sq) in rs)     # in the order they were made
-        idx, start = -1, None
+        # On a non-dyadic resolution (k/24, k/96: tick times not exact in 5 decimals) the code's rounded float comparison may
+        # hold the value one read longer exactly on the boundary — "at least its duration" still holds.  When the element that
+        # follows equals the held one (after a rewind of the inner pattern) the read does not tell which of the two happened,
+        # so the reference follows both: a set of (index, start tick, held value) states, and a read is right when at least
+        # one of them explains it.
+        states = {(-1, None, None)}
+        rewinds = sorted(inner_rewound)
+        dyadic = tpb & (tpb - 1) == 0
         for (sq, j, k, v, t) in allreads:
-            dyadic = tpb & (tpb - 1) == 0
-            if start is not None and j - start == hold_t and not dyadic and idx < total and v == vals[idx % len(vals)]:
-                # exactly on the boundary with tick times that are not exact in 5 decimals (k/24, k/96): the code's
-                # rounded float comparison may hold the value one read longer — "at least its duration" still holds
-                pass
-            elif start is None or j - start >= hold_t:
-                idx += 1
-                start = j
-            if idx >= total:
-                bad = ("C07:static-read-after-end", "reader %d at tick %d was served %r although the shared pattern (%d elements) had ended: "
-                       "this read needs element %d (hold %d ticks, tpb %d)" % (k, j, v, total, idx, hold_t, tpb))
+            while rewinds and rewinds[0] < sq:
+                rewinds.pop(0)
+                states = {(-1, st, cv) for (_, st, cv) in states}   # the elements start over at the next change; the held value stays
+            nxt, ended, exps = set(), False, []
+            for (idx, start, cur_val) in states:
+                may_hold = start is not None and (j - start < hold_t or (j - start == hold_t and not dyadic))
+                may_advance = start is None or j - start >= hold_t
+                if may_hold:
+                    exps.append(cur_val)
+                    if v == cur_val:
+                        nxt.add((idx, start, cur_val))
+                if may_advance:
+                    if idx + 1 >= total:
+                        ended = True
+                    else:
+                        e = vals[(idx + 1) % len(vals)]
+                        exps.append(e)
+                        if v == e:
+                            nxt.add((idx + 1, j, e))
+            if not nxt:
+                if ended and not exps:
+                    bad = ("C07:static-read-after-end", "reader %d at tick %d was served %r although the shared pattern (%d elements) had ended "
+                           "(hold %d ticks, tpb %d)" % (k, j, v, total, hold_t, tpb))
+                else:
+                    bad = ("C07:static-hold", "reader %d at tick %d read %r, expected %s (hold %d ticks, tpb %d)"
+                           % (k, j, v, " or ".join(map(repr, sorted(set(exps)))), hold_t, tpb))
                 break
-            exp = vals[idx % len(vals)]
-            if exp is not None and v != exp:
-                bad = ("C07:static-hold", "reader %d at tick %d read %r, expected %r (hold %d ticks, tpb %d)" % (k, j, v, exp, hold_t, tpb))
-                break
+            states = nxt
             if abs(t - round(j / tpb, 5)) > 1e-9:
                 bad = ("C07:current-time", "PCurrentTime read %r at tick %d (tpb %d)" % (t, j, tpb))
                 break
@@ -199,10 +226,14 @@ def static_cases(ctx):
         if ctx.model_available and (tpb & (tpb - 1) == 0) and not bad and allreads:
             from fractions import Fraction
             lines = ["new %d/%d" % (hold_t, tpb)]
+            rw = sorted(inner_rewound)
             for (sq, j, k, v, t) in allreads:
+                while rw and rw[0] < sq:
+                    rw.pop(0)
+                    lines.append("rewind")
                 f = Fraction(round(j / tpb, 5))
                 lines.append("read %d/%d" % (f.numerator, f.denominator))
-            out = ctx.driver("static", lines)[1:]
+            out = [x for x in ctx.driver("static", lines)[1:] if x != "ok"]
             got = [v - 100 for (sq, j, k, v, t) in allreads]
             mdl = [int(x) % len(vals) for x in out]
             validated = True
@@ -213,7 +244,10 @@ def static_cases(ctx):
                  sample={"static": {"tpb": tpb, "hold_ticks": hold_t, "readers": nreaders, "reads": sum(len(v) for v in reads.values())}} if i < 2 else None)
         ctx.count("static:readers=%d" % nreaders)
         if bad:
-            ctx.violation(bad[0], bad[1], {"suite": "static", "tpb": tpb, "hold_ticks": hold_t, "values": vals, "readers": nreaders, "ticks": n})
+            ctx.violation(bad[0], bad[1], {"suite": "static", "tpb": tpb, "hold_ticks": hold_t, "values": vals, "readers": nreaders, "ticks": n,
+                                            "repeats": reps, "late": {str(k): list(v) for k, v in late.items()},
+                                            "wrapped_after_read": list(inner_rewound),
+                                            "reads_seq_tick_reader_value": [[sq, j, k, v] for (sq, j, k, v, t) in allreads[:80]]})
     # globals
     from isobar.globals import Globals
     for i in range(ctx.scale(60, 800)):
@@ -281,7 +315,7 @@ def shared_literal_cases(ctx):
 
     for i in range(ctx.scale(60, 3000)):
         vals = [r.randint(40, 90) for _ in range(r.randint(2, 6))]
-        form = r.choice(["notation-string", "notation-string", "nested-notation", "list", "psequence-of-same-list"])
+        form = r.choice(["notation-string", "notation-string", "nested-notation", "list", "psequence-of-same-list", "reused-dict", "reused-dict"])
         if form == "nested-notation":
             text = "%d [ %s ] %d" % (vals[0], " ".join(map(str, vals[1:])), vals[-1])
             # one element of the nested group per cycle of its parent (C20): expand by simulation of the reference
@@ -300,7 +334,17 @@ def shared_literal_cases(ctx):
         dev = ByChannel()
         tl = iso.Timeline(tempo=120, output_device=dev, clock_source=iso.DummyClock(ticks_per_beat=tpb))
         starts = []
+        shared = {}
         for c in range(ntracks):
+            if form == "reused-dict":
+                # ONE dict object, refilled for every schedule() call (as a loop that builds tracks does): each track plays
+                # what the dict held when it was scheduled, also when its start is deferred by a delay
+                delay = r.choice([0, 1, 2, 3])
+                starts.append(delay)
+                shared.clear()
+                shared.update(note=iso.PSequence([v + c for v in vals]), duration=1, channel=c)
+                tl.schedule(shared, delay=delay)
+                continue
             if form in ("notation-string", "nested-notation"):
                 note = str(text)                                   # equal strings (possibly the very same object)
             elif form == "list":
@@ -317,7 +361,7 @@ def shared_literal_cases(ctx):
         for c in range(ntracks):
             got = dev.notes.get(c, [])
             n_exp = max(0, nbeats - starts[c])
-            exp = expand(n_exp)
+            exp = expand(n_exp) if form != "reused-dict" else [v + c for v in expand(n_exp)]
             if got != exp:
                 bad = (c, got, exp)
                 break
